@@ -7,6 +7,7 @@ import re
 import subprocess
 import sys
 import threading
+import time
 
 from lib import coq_list as L
 
@@ -619,12 +620,16 @@ def lark_class_state():
     return roots
 
 
+SNAPSHOT_CAP = 60000
+FRAMES = {'on': True}
+
+
 def snapshot(inst):
     """id -> (owner type name, path, shallow state); keeps the objects alive"""
     seen = {}
     keep = []
     stack = [(('root',), inst, None)] + [(p, o, None) for p, o in lark_class_state()]
-    while stack:
+    while stack and len(seen) < SNAPSHOT_CAP:
         path, o, owner = stack.pop()
         if id(o) in seen or isinstance(o, ATOMS) or isinstance(o, type) or inspect.ismodule(o):
             continue
@@ -661,7 +666,7 @@ def frame_violation(before, after):
         # containers: only those hanging off an allowed attribute may change (indent_level list, callback dict)
         if any(isinstance(p, tuple) and p[0] == 'attr' and p[1] in ('indent_level', 'callback', '_scanner', '_search_scanner') for p in path):
             continue
-        return '%s at %s changed from %s to %s' % (tn, _fmt(path), str(st)[:80], str(st2)[:80])
+        return '%s at %s changed (%d -> %d entries)' % (tn, _fmt(path), len(st[1]), len(st2[1]))
     return None
 
 
@@ -688,7 +693,7 @@ def run_history(cid, ops, with_frames=False):
     steps = []
     problem = None
     for i, op in enumerate(ops):
-        snap = snapshot(inst) if with_frames else None
+        snap = snapshot(inst) if with_frames and FRAMES['on'] else None
         res, info = run_op(inst, op)
         steps.append((op, res, info, observe_state(cid, inst)))
         if problem is None:
@@ -699,10 +704,13 @@ def run_history(cid, ops, with_frames=False):
             m = coherence_violation(cid, inst)
             if m:
                 problem = ('coherence', i, m, None, None)
-        if problem is None and with_frames:
+        if problem is None and snap is not None:
             m = frame_violation(snap, snapshot(inst))
             if m:
                 problem = ('frame', i, m, None, None)
+                FRAMES['n'] = FRAMES.get('n', 0) + 1
+                if FRAMES['n'] >= 4:
+                    FRAMES['on'] = False        # established; further snapshots only cost time (a leak makes them grow)
     return inst, steps, problem
 
 
@@ -715,10 +723,19 @@ def history_stream(ctx):
     defs = lconf_defs()
     for hi in range(n):
         cid = cids[hi % len(cids)] if hi < 2 * len(cids) else rng.choice(cids)
-        ops = [gen_op(rng, cid) for _ in range(rng.randint(0, 6))]
+        ops = []
+        for _ in range(rng.randint(0, 6)):
+            op = gen_op(rng, cid)
+            prev = [o for o in ops if o[0] != 'other']
+            if prev and op[0] != 'other' and rng.random() < 0.25:
+                op[1] = rng.choice(prev)[1]          # the same text again (caches keyed by the input show up here)
+            ops.append(op)
         probe = gen_op(rng, cid)
         while probe[0] == 'other':
             probe = gen_op(rng, cid)
+        prev = [o for o in ops if o[0] != 'other']
+        if prev and rng.random() < 0.3:
+            probe[1] = rng.choice(prev)[1]
         allops = ops + [probe]
         with_frames = hi < 2 * len(cids) or rng.random() < (0.25 if ctx.thorough() else 0.06)
         nframes += with_frames
@@ -741,8 +758,10 @@ def history_stream(ctx):
                     ctx.violation('history-%s+oracle' % stage, found, True, '%s; and a following call answers differently '
                                   'from a fresh instance' % msg)
                 else:
-                    ctx.violation('correspondence:%s' % stage, dict(w, no_longer_checks='instance state model: ' + msg), False,
-                                  '%s: after operation %d %r: %s' % (cid, i, allops[i][:2], msg))
+                    ctx.nsoft = getattr(ctx, 'nsoft', 0) + 1
+                    if ctx.nsoft <= 3:
+                        ctx.violation('correspondence:%s' % stage, dict(w, no_longer_checks='instance state model: ' + msg), False,
+                                      '%s: after operation %d %r: %s' % (cid, i, allops[i][:2], msg))
             continue
         if CONFIGS[cid][4]:
             try:
@@ -773,8 +792,14 @@ def search_failing_probe(ctx, cid, ops, tries=60):
     """after the given history, look for a call whose result differs from the fresh instance's"""
     import random
     rng = random.Random(ctx.seed * 7919 + len(ops))
-    for t in range(tries):
-        probe = gen_op(rng, cid)
+    again = []
+    for o in ops:                      # first the calls of the history themselves, complete and with the same text
+        if o[0] != 'other':
+            for cand in ([o[0], o[1], None], ['parse', o[1], None], ['lex', o[1], None]):
+                if cand[0] in CONFIGS[cid][5] and cand not in again:
+                    again.append(cand)
+    for t in range(tries + len(again)):
+        probe = again[t] if t < len(again) else gen_op(rng, cid)
         if probe[0] == 'other':
             continue
         inst = make_instance(cid)
@@ -868,6 +893,9 @@ def sched_points():
 def _dedent(src):
     ind = len(src[0]) - len(src[0].lstrip())
     return ''.join(l[ind:] if l.strip() else '\n' for l in src)
+
+
+RUN_TIMEOUT = 60
 
 
 class Sched:
@@ -1001,12 +1029,14 @@ class Sched:
             while any(s == 'running' for s in self.state.values()):
                 self.cv.wait(10)
             self.started = True
+            deadline = time.time() + RUN_TIMEOUT
             if self.pick() is not None:
-                while self.grant != 'controller':
-                    self.cv.wait(10)
+                while self.grant != 'controller' and time.time() < deadline:
+                    self.cv.wait(1)
+            self.hung = self.grant != 'controller'
         for th in ths:
-            th.join(10)
-        return [results.get(t) for t in range(len(fns))]
+            th.join(0.1 if self.hung else 10)
+        return [results.get(t, ['hang']) for t in range(len(fns))]
 
 
 # One Indenter object used by concurrent streams is the stateful post-lexer the property excludes: no Indenter here.
@@ -1167,7 +1197,9 @@ def schedule_stream(ctx):
     for thid in ('lexonly', 'lalr_basic', 'lalr_ctx'):
         for texts in TH_TEXTS[thid]:
             if thid == 'lexonly' and texts == TH_TEXTS['lexonly'][0]:
-                plan.append((thid, texts, None if ctx.thorough() or ctx.widen else 2, None))
+                # all interleavings (thorough, for the publish-last code: about 12000); otherwise bounded pre-emptions
+                full = ctx.thorough() and order == 'PublishLast' and not ctx.widen
+                plan.append((thid, texts, None if full else (3 if ctx.thorough() or ctx.widen else 2), None))
             else:
                 plan.append((thid, texts, 2 if ctx.thorough() else 1, ctx.scale(40, 1500)))
     for thid, texts, bound, limit in plan:
@@ -1179,6 +1211,8 @@ def schedule_stream(ctx):
             ctx.count('schedules', key=(thid, tuple(texts), tuple(sched)), nontrivial=both, thread_config=thid,
                       schedule_len=min(len(sched), 60) // 10 * 10, preemptions=min(preemptions(sched, s.live_sets), 6))
             check_schedule_result(ctx, thid, texts, sched, results, seq, inst)
+            if s.hung:
+                return
             if CONFIGS[cid][4]:
                 cases.append(coq_sched_case(order, cid, texts, s, sched))
                 meta.append((thid, texts, sched))
@@ -1213,6 +1247,9 @@ def schedule_stream(ctx):
                       'the cells observed at the scheduling points differ from the model run of the same schedule')
 
 
+PROBE_TEXTS = ['ab if 1', 'if x', '7 ( y )']
+
+
 def check_schedule_result(ctx, thid, texts, sched, results, seq, inst):
     for t, (r, sq) in enumerate(zip(results, seq)):
         if r != sq:
@@ -1223,8 +1260,24 @@ def check_schedule_result(ctx, thid, texts, sched, results, seq, inst):
             return False
     m = coherence_violation(TH_CONFIGS[thid][0], inst)
     if m:
-        ctx.violation('correspondence:coherence-after-schedule', {'no_longer_checks': 'coherent cells after a schedule',
-                                                                 'thread_config': thid, 'texts': texts, 'schedule': sched}, False, m)
+        # the cells are not what the builders return: does a later call on this instance show it?
+        cid, how = TH_CONFIGS[thid]
+        for tx in PROBE_TEXTS:
+            try:
+                r = ['ok', thread_job(inst, how, tx)()]
+            except BaseException as e:  # noqa
+                r = ['exc', type(e).__name__, str(e)[:100]]
+            sq = sequential(thid, tx)
+            if r != sq:
+                ctx.violation('schedule+probe-oracle', {'kind': 'schedule', 'thread_config': thid, 'texts': texts, 'schedule': sched,
+                                                        'probe': tx, 'result': r, 'sequential_result': sq}, True,
+                              '%s: after schedule %s the instance answers %s to %r, a fresh instance %s (%s)'
+                              % (thid, ''.join(map(str, sched)), str(r)[:100], tx, str(sq)[:100], m[:120]))
+                return False
+        ctx.nincoh = getattr(ctx, 'nincoh', 0) + 1
+        if ctx.nincoh <= 2:
+            ctx.violation('correspondence:coherence-after-schedule', {'no_longer_checks': 'coherent cells after a schedule',
+                                                                     'thread_config': thid, 'texts': texts, 'schedule': sched}, False, m)
     return True
 
 
@@ -1255,10 +1308,15 @@ def stress_stream(ctx):
                 out[i] = res
             ths = [threading.Thread(target=work, args=(i,)) for i in range(8)]
             for th in ths:
+                th.daemon = True
                 th.start()
             for th in ths:
-                th.join()
+                th.join(RUN_TIMEOUT)
             ctx.count('stress', key=(thid, tuple(texts)), nontrivial=True)
+            if any(th.is_alive() for th in ths):
+                ctx.violation('stress-oracle', {'kind': 'stress', 'thread_config': thid, 'texts': texts, 'result': 'hang'}, True,
+                              '%s: concurrent calls did not return within %d s' % (thid, RUN_TIMEOUT))
+                return
             for i, res in enumerate(out):
                 for k, rr in res or []:
                     if rr != seq[k]:
@@ -1300,6 +1358,13 @@ def replay(ctx, case):
         thid, texts, sched = w['thread_config'], w['texts'], w['schedule']
         inst, s, results = run_schedule(thid, texts, sched, points)
         seq = [sequential(thid, tx) for tx in texts]
+        if w.get('probe') is not None:
+            cid, how = TH_CONFIGS[thid]
+            try:
+                results = ['ok', thread_job(inst, how, w['probe'])()]
+            except BaseException as e:  # noqa
+                results = ['exc', type(e).__name__, str(e)[:100]]
+            seq = sequential(thid, w['probe'])
         print('scheduled :', json.dumps(results)[:400])
         print('sequential:', json.dumps(seq)[:400])
         return json.loads(json.dumps(results)) != json.loads(json.dumps(seq))
